@@ -31,7 +31,8 @@ ASSUMPTIONS = [
 ]
 case_size = common.case_size
 
-TARGET_NAMES = ["zeta", "Y", "x10", "x9", "Beta", "alpha", "_m"]
+# rename targets: sort order, length and hash order all differ from A..F, and some names contain others (Jo/Joan, x1/x10)
+TARGET_NAMES = ["Joan", "Y", "x10", "x1", "Jo", "alpha", "_m", "Beta", "zeta"]
 
 
 def generate(run_seed, tier):
